@@ -7,6 +7,7 @@ package run
 
 import (
 	"math/rand"
+	"os"
 )
 
 // Violation is one observed refutation of the property. Class+Site form the
@@ -95,6 +96,16 @@ func (c *Ctx) SaveInput(data []byte) {
 	}
 }
 
+// ScratchDir is a directory private to the worker child (removed by the parent afterwards);
+// in replay mode a fresh temporary directory.
+func (c *Ctx) ScratchDir() string {
+	if c.w != nil {
+		return c.w.dir
+	}
+	d, _ := os.MkdirTemp("", "verif-replay-")
+	return d
+}
+
 // SubRng derives an independent generator (e.g. to regenerate the same input twice).
 func (c *Ctx) SubRng(salt uint64) *rand.Rand {
 	return rand.New(rand.NewSource(int64(Mix(c.Seed, uint64(c.Case), salt, hashStr(c.Phase)))))
@@ -144,6 +155,7 @@ type Aggregate struct {
 	Evaluations  int
 	Held         int
 	Violated     int
+	KnownOnly    int
 	Inconclusive int
 	Distinct     map[uint64]bool // hashes of non-trivial signatures
 	Counters     map[string]int64
@@ -157,6 +169,7 @@ type PhaseAgg struct {
 	Cases        int `json:"cases"`
 	Held         int `json:"held"`
 	Violated     int `json:"violated"`
+	KnownOnly    int `json:"known_finding_only,omitempty"`
 	Inconclusive int `json:"inconclusive"`
 	Deaths       int `json:"worker_deaths"`
 	RaceReports  int `json:"race_reports,omitempty"`
